@@ -62,7 +62,7 @@ MinDepth(E, ty, v) ==
     [] ty.k = "option" -> IF Len(v) = 0 THEN 0 ELSE MinDepth(E, ty.t, v[1])
     [] ty.k = "result" -> IF "ok" \in DOMAIN v THEN MinDepth(E, ty.t, v.ok) ELSE MinDepth(E, ty.e, v.err)
     [] ty.k = "seq" -> IF ZeroElems(E, ty) THEN (IF IsZeroDig(v.rep) THEN 0 ELSE 1 + ZDepth(E, Resolve(E, ty.t)))
-                       ELSE IF Len(v) = 0 \/ BulkElems(E, ty) THEN 0
+                       ELSE IF Len(v) = 0 \/ (BulkElems(E, ty) /\ ty.c # "list") THEN 0
                        ELSE 1 + MaxSeq(LAMBDA x : MinDepth(E, ty.t, x), v)
     [] ty.k = "set" -> IF Len(v) = 0 THEN 0 ELSE 1 + MaxSeq(LAMBDA x : MinDepth(E, ty.t, x), v)
     [] ty.k = "map" -> IF Len(v) = 0 THEN 0
